@@ -322,7 +322,7 @@ def descriptor_hooks_part(run, rng):
                             run.count("special_layout_%s_%s" % (lname, "ok" if want[0] == "ok" else "failing"))
                         elif want[0] == "ok":
                             run.count("descriptor_hook_comparisons_ok_" + D.rstrip("()").lower())
-                        if got != want:
+                        if got != want and "timeout" not in repr(got)[:40] and "timeout" not in repr(want)[:40]:
                             run.violation("%s: the generated code (%s) and the field loop disagree on unpack values / end offset / "
                                           "pack bytes / values after pack" % (("layout '%s'" % lname) if special else ("with a user descriptor (%s)" % D), variants[v]),
                                           {"source": src, "layout": lname, "descriptor": D, "variant": v, "options": variants[v], "input": b2j(raw),
@@ -352,7 +352,7 @@ def descriptor_hooks_part(run, rng):
                             continue
                         got = build(getattr(module, rootname + "_" + v))
                         run.count("descriptor_hook_pack_comparisons")
-                        if got != want:
+                        if got != want and "timeout" not in repr(got)[:40] and "timeout" not in repr(want)[:40]:
                             run.violation("with a user descriptor (%s) the generated code (%s) and the field loop disagree on pack() of a constructed packet"
                                           % (D, variants[v]), {"source": src, "layout": lname, "descriptor": D, "variant": v, "options": variants[v],
                                                                "kwargs": common.to_json(kw), "field_loop": common.to_json(want), "generated": common.to_json(got)}, None)
